@@ -350,6 +350,9 @@ fn get_xref_info(
         // Check for a conventional or hybrid xref section.
         let mut xinfo = parse_xref_section(fi, ctxt, pb);
         if xinfo.is_none() {
+            // A failed parse can leave the cursor anywhere: look for the
+            // xref stream at the specified offset, not at the leftover.
+            pb.set_cursor_unsafe(next);
             xinfo = parse_xref_stream(fi, ctxt, pb);
         }
         if xinfo.is_none() {
